@@ -37,7 +37,7 @@ func bigStruct(r *kernel.Run, approxBytes int) *structpb.Struct {
 	return s
 }
 
-var nearMissProtos = []string{"h2", "http/1.1", "boundary-worker", "V1-NODEE-AUTHENTICATE-NODE-00-AAAA", "v1-nodee-authenticate-nod", "xv1-nodee-authenticate-node-", "v1-nodee-", "v1_nodee_fetch_node_creds_", "v1-nodee-certificate-preferenc", "__AUTH__", "__UNAUTH__", "é-proto", "a"}
+var nearMissProtos = []string{"v1-nodee-fetch-node-creds-lookalike", "h2", "http/1.1", "boundary-worker", "V1-NODEE-AUTHENTICATE-NODE-00-AAAA", "v1-nodee-authenticate-nod", "xv1-nodee-authenticate-node-", "v1-nodee-", "v1_nodee_fetch_node_creds_", "v1-nodee-certificate-preferenc", "__AUTH__", "__UNAUTH__", "é-proto", "a"}
 
 func drawExtras(tp *kernel.Tape) []string {
 	switch tp.Draw(6) {
@@ -195,14 +195,24 @@ func c16CustomConfig(r *kernel.Run, tp *kernel.Tape, w *Wire, creds *types.NodeC
 	}
 	cfg := cfgs[0]
 	tail := []string{"app-proto-after-selector", "h2", "app-proto-after-selector"}[:tp.Range(1, 3)]
-	cfg.NextProtos = append(append([]string{}, cfg.NextProtos...), tail...)
+	where := "after the certificate preference"
+	switch tp.Draw(3) {
+	case 0:
+		cfg.NextProtos = append(append([]string{}, cfg.NextProtos...), tail...)
+	case 1: // the application lists its own protocols first
+		cfg.NextProtos = append(append([]string{}, tail...), cfg.NextProtos...)
+		where = "before the request entries"
+	default: // ... or on both sides
+		cfg.NextProtos = append(append([]string{"grpc-exp"}, cfg.NextProtos...), tail...)
+		where = "around the request entries"
+	}
 	res := w.rawClient(fmt.Sprintf("custom%d", r.NextID()), cfg)
 	w.Quiesce()
 	acc := w.Take()
 	r.Count("cases", 1)
 	r.Count("ops.custom_config_dial", 1)
 	if res.err != nil {
-		r.Violate("honest-connects", "honest-dial-failed", "client built from ClientConfigs with appended protocols: %v", shortErr(res.err))
+		r.Violate("honest-connects", "honest-dial-failed", "client built from ClientConfigs with its own protocols %s: %v", where, shortErr(res.err))
 	}
 	want := withoutCertPref(res.hello)
 	for _, a := range acc {
@@ -211,7 +221,7 @@ func c16CustomConfig(r *kernel.Run, tp *kernel.Tape, w *Wire, creds *types.NodeC
 		}
 		if a.err == nil && a.conn != nil && strings.HasPrefix(a.negotiated, nodeenrollment.AuthenticateNodeNextProtoV1Prefix) {
 			if got := a.conn.ClientNextProtos(); !equalStrings(got, want) {
-				r.Violate("client-protos", "protocol-list-differs/"+protoDiffClass(got, want), "client offering protocols after the certificate preference: ClientNextProtos()=%q, offered (minus preference) %q", truncList(got), truncList(want))
+				r.Violate("client-protos", "protocol-list-differs/"+protoDiffClass(got, want), "client offering its own protocols %s: ClientNextProtos()=%q, offered (minus preference) %q", where, truncList(got), truncList(want))
 			}
 		}
 		if a.raw != nil {
@@ -223,7 +233,7 @@ func c16CustomConfig(r *kernel.Run, tp *kernel.Tape, w *Wire, creds *types.NodeC
 	}
 	w.Quiesce()
 	w.Take()
-	r.FP("custom-config", extras, tail)
+	r.FP("custom-config", extras, tail, where)
 }
 
 // c16Adversary: a registered key holder sends client state that is unsigned or carries a forged signature.
